@@ -280,12 +280,143 @@ def transparency_quick(a64: bool, mask: int, noise_kind: int, variant: int) -> b
     return verdict(ok, nontrivial=nt, sample=sample)
 
 
+def _long_concrete(isa, n_noise, noise_kind, pos, variant):
+    """enough noise lines that the kernel crosses KernelDG.INSTRUCTION_THRESHOLD (other LCD search)"""
+    from harness._pipeline import analyze
+    arch, body, noises, cmt, smark, emark = KERNELS[isa]
+    if (isa, False) not in _BASE:
+        _BASE[(isa, False)] = _key(analyze("\n".join(body) + "\n", arch, whole=True))
+    lines = []
+    for i, l in enumerate(body):
+        if i == pos:
+            lines += [noises[noise_kind] if noise_kind != 1 else ".L9%d:" % j for j in range(n_noise)]
+        lines.append(l)
+    pro = ["pushq %rbp" if isa == "x86" else "mov x9, x10", cmt + " prologue"]
+    epi = ["ret", cmt + " epilogue"]
+    if variant == 0:
+        r = analyze("\n".join(lines) + "\n", arch, whole=True)
+    elif variant == 1:
+        r = analyze("\n".join(pro + smark + lines + emark + epi) + "\n", arch)
+    else:
+        first = len(pro) + len(smark) + 1
+        r = analyze("\n".join(pro + smark + lines + emark + epi) + "\n", arch, lines="%d-%d" % (first, first + len(lines) - 1))
+    return _key(r) == _BASE[(isa, False)] and not r["timed_out"], r["n_lines"] >= 50, {"isa": isa, "noise_lines": n_noise, "noise": noises[noise_kind], "before_line": pos, "variant": ["bare", "byte markers", "--lines"][variant]}
+
+
+def transparency_long(a64: bool, n: int, noise_kind: int, pos: int, variant: int) -> bool:
+    """
+    pre: 40 <= n <= 44 and 0 <= noise_kind < 4 and 0 <= pos < 8 and 0 <= variant < 3
+    post: _
+    """
+    if skip(locals()):
+        return True
+    lo, hi = shard(16)
+    if not (lo <= (n - 40) * 4 + noise_kind < hi):
+        return True
+    ok, nt, sample = native(_long_concrete, "aarch64" if a64 else "x86", pick(n - 40, 5) + 40, pick(noise_kind, 4), pick(pos, 8), pick(variant, 3))
+    return verdict(ok, nontrivial=nt, sample=sample)
+
+
+def transparency_long_quick(a64: bool, n: int, noise_kind: int, pos: int, variant: int) -> bool:
+    """
+    pre: 41 <= n <= 43 and 0 <= noise_kind < 4 and 0 <= pos < 8 and 0 <= variant < 3
+    post: _
+    """
+    if skip(locals()):
+        return True
+    lo, hi = shard(12)
+    if not (lo <= (n - 41) * 4 + noise_kind < hi):
+        return True
+    if pos % 3 != 1 or variant == 1:
+        return True
+    ok, nt, sample = native(_long_concrete, "aarch64" if a64 else "x86", pick(n - 41, 3) + 41, pick(noise_kind, 4), pick(pos, 8), pick(variant, 3))
+    return verdict(ok, nontrivial=nt, sample=sample)
+
+
+# ---- the real CLI: marked file vs. every spelling of the same line set with --lines ------------------
+
+def _spellings(first, last):
+    """--lines strings that all name exactly the set first..last (file order is fixed by the file)"""
+    mid = (first + last) // 2
+    nums = list(range(first, last + 1))
+    return [
+        "%d-%d" % (first, last),
+        "%d:%d" % (first, last),
+        ",".join(str(n) for n in nums),
+        ",".join(str(n) for n in reversed(nums)),                         # descending enumeration
+        "%d-%d,%d-%d" % (mid + 1, last, first, mid),                      # ranges in the wrong order
+        "%d-%d,%d:%d" % (first, last, first + 1, mid),                    # overlapping ranges
+        "%d,%d-%d,%d" % (mid, first, last, mid),                          # a number inside a range, twice
+        "%d-%d,%d-%d" % (first, mid, mid, last),                          # ranges sharing an end point
+        "%d,%d-%d" % (last, first, last - 1),                             # last line first
+        "0,%d-%d,%d" % (first, last, last + 1000),                        # numbers of lines that do not exist
+    ]
+
+
+def _strip_cmdline(out):
+    # the header echoes the command line / file name and carries a timestamp; everything else has to agree
+    return "\n".join(l for l in out.splitlines() if not l.startswith("Open Source Architecture Code Analyzer") and "--lines" not in l and "Command line" not in l and not l.startswith("Timestamp:"))
+
+
+_CLI_BASE = {}
+
+
+def _cli_lines_concrete(isa, spelling, noise_mask):
+    import os
+    import tempfile
+    from harness._pipeline import run_cli
+    arch, body, noises, cmt, smark, emark = KERNELS[isa]
+    lines = []
+    for i, l in enumerate(body):
+        if noise_mask >> i & 1:
+            lines.append(noises[i % len(noises)])
+        lines.append(l)
+    pro = ["pushq %rbp" if isa == "x86" else "mov x9, x10", cmt + " prologue"]
+    epi = ["ret", cmt + " epilogue"]
+    text = "\n".join(pro + [cmt + " OSACA-BEGIN"] + lines + [cmt + " OSACA-END"] + epi) + "\n"
+    first = len(pro) + 2
+    last = first + len(lines) - 1
+    arg = _spellings(first, last)[spelling]
+    with tempfile.TemporaryDirectory() as td:
+        path = os.path.join(td, "k.s")
+        with open(path, "w") as f:
+            f.write(text)
+        k = (isa, noise_mask)
+        if k not in _CLI_BASE:
+            _CLI_BASE[k] = _strip_cmdline(run_cli(path, ["--arch", arch])).replace(td, "")
+        got = _strip_cmdline(run_cli(path, ["--arch", arch, "--lines", arg])).replace(td, "")
+    want = _CLI_BASE[k]
+    ok = got == want and "Loop-Carried Dependencies Analysis Report" in got
+    return ok, True, {"isa": isa, "lines_arg": arg, "kernel_lines": [first, last], "noise_mask": noise_mask}
+
+
+def cli_lines(a64: bool, spelling: int, noise: int) -> bool:
+    """
+    pre: 0 <= spelling < 10 and 0 <= noise < 3
+    post: _
+    """
+    if skip(locals()):
+        return True
+    lo, hi = shard(10)
+    if not (lo <= spelling < hi):
+        return True
+    mask = [0, 0b00010010, 0b10100101][pick(noise, 3)]
+    ok, nt, sample = native(_cli_lines_concrete, "aarch64" if a64 else "x86", pick(spelling, 10), mask)
+    return verdict(ok, nontrivial=nt, sample=sample)
+
+
 CELLS = {
     "markers_x86": {"fn": markers_x86, "bound": "files = 0-1 prologue + start marker + 0-2 body + end marker + 0-1 epilogue units; units = one of 8 decoy kinds (incl. mov $w to the marker register without bytes / other register / wrong bytes / byte prefix); marker style {one .byte line, one byte per line, comment, extra trailing byte}; marker immediates v1, v2 and decoy immediate w: ALL integers",
                     "budget": {"quick": 170, "thorough": 900}, "shards": 12},
     "markers_a64": {"fn": markers_a64, "bound": "same on AArch64 (mov x1,#imm + .byte 213,3,32,31)", "budget": {"quick": 170, "thorough": 900}, "shards": 12},
     "lines_arg": {"fn": lines_arg, "bound": "--lines strings a-b, a:b, c,a-b, a-b,c, a, a,b,c for all a,b,c <= 12", "budget": {"quick": 170, "thorough": 600}, "shards": 13},
     "lines_select": {"fn": lines_select, "bound": "4 parsed lines with symbolic increasing line numbers <= 100000, symbolic range of width <= 6", "budget": {"quick": 120, "thorough": 300}},
+    "cli_lines": {"fn": cli_lines, "bound": "the real CLI (create_parser, check_arguments, run, inspect) on an 8-line zen1 / tx2 kernel between comment markers, against the same file with --lines in 10 spellings of the same line set (a-b, a:b, enumeration ascending and descending, ranges in the wrong order, overlapping, sharing an end point, a number repeated, numbers of missing lines) x 3 noise layouts: the printed report (minus the command-line echo) is identical",
+                  "budget": {"quick": 170, "thorough": 600}, "shards": 10},
+    "transparency_long_quick": {"fn": transparency_long_quick, "tiers": ("quick",), "bound": "the same kernels with 41-43 noise lines of one kind inserted before line 1, 4 or 7, so that the selected kernel has 49-51 lines and crosses KernelDG.INSTRUCTION_THRESHOLD = 50 (the multi-process LCD search with its own root handling); bare and --lines variants",
+                                "budget": {"quick": 170}, "shards": 12},
+    "transparency_long": {"fn": transparency_long, "tiers": ("thorough",), "bound": "40-44 noise lines (kernel of 48-52 lines) before every line 0-7, bare / byte markers / --lines",
+                          "budget": {"thorough": 900}, "shards": 16},
     "transparency_quick": {"fn": transparency_quick, "tiers": ("quick",), "bound": "8-line kernel on zen1 / tx2; noise line (comment, label, directive, blank) inserted at <= 1 symbolic position x 4 input variants (bare, byte markers, comment markers, --lines)", "budget": {"quick": 170}, "shards": 9},
     "transparency": {"fn": transparency, "tiers": ("thorough",), "bound": "noise at every subset of the 8 positions x 4 noise kinds x 4 variants, plus --fixed", "budget": {"thorough": 2400}, "shards": 64},
 }
@@ -294,7 +425,7 @@ META = {
     "functions": ["marker_utils.reduce_to_section", "find_marked_kernel_x86ATT", "find_marked_kernel_AArch64", "find_marked_section", "match_bytes", "osaca.get_line_range",
                   "selection by line number as in osaca.inspect", "end to end: parse_file, ArchSemantics.add_semantics, assign_optimal_throughput x2, KernelDG, Frontend.full_analysis_dict on zen1/tx2"],
     "bounds": "see cells; marker immediates are unbounded symbolic ints, layout symbolic",
-    "outside": "files with exactly one marker or several start/end markers (not specified by the statement); osaca.inspect itself (argument handling) - the analysis steps are replicated in harness/_pipeline.py",
+    "outside": "files with exactly one marker or several start/end markers (not specified by the statement); in the transparency cells the analysis steps of osaca.inspect are replicated in harness/_pipeline.py - osaca.inspect itself runs in cli_lines",
     "assumptions": ["transparency cells are native runs on shipped models per solver-chosen layout (metamorphic, no oracle)",
                     "a mov $111/$222 into the marker register counts as a marker only when directly followed by .byte lines whose bytes start with the nop sequence"],
 }
